@@ -1,6 +1,7 @@
 import Lean.Data.Json
 import Driver.Util
 import Cutadapt.Regroup
+import Driver.OpsParser
 /-! `pipeline <json>`: run the pipeline model on an option record, adapters and reads given as JSON; print JSON. -/
 namespace Driver
 open Lean Cutadapt Cutadapt.Adapters
@@ -44,6 +45,53 @@ def parseMatchable (j : Json) : Except String Matchable := do
     pure (.linked (← parseSingle (← j.getObjVal? "front")) (← parseSingle (← j.getObjVal? "back"))
       (← jbool j "front_required") (← jbool j "back_required") (← jstr j "name"))
   | k => throw s!"kind {k}"
+
+/-! ### Adapters from the specifications on the command line (`-a`/`-g`/`-b SPEC` and the global search options), through the parser model
+    of C18: the adapter list of the pipeline model is then a function of the command line, not of the objects the real parser built. -/
+
+def adapterOfSingle (a : Parser.Single) (name : String) : Except String Adapter := do
+  let ty : AdapterType := match a.cls with
+    | .front => .front | .rightmostFront => .rightmostFront | .back => .back | .anywhere => .anywhere
+    | .nonInternalFront => .nonInternalFront | .nonInternalBack => .nonInternalBack | .prefix => .prefix | .suffix => .suffix
+  let bits ← match (P.rateBits a.maxErrors a.divisor).toNat? with | some n => pure n | none => throw "rate-not-representable"
+  let mo ← match a.minOverlap with
+    | .int n => pure n
+    | .bool b => pure (if b then 1 else 0)
+    | .float _ => throw "min_overlap-float"
+  pure { ty := ty, seq := P.bytesOfStr a.sequence, thr := thrOfRate (Float.ofBits bits.toUInt64), minOverlap := mo,
+         readWildcards := a.readWildcards.truthy, adapterWildcards := a.adapterWildcards, indels := a.indels.truthy,
+         forceAnywhere := a.forceAnywhere, name := name }
+
+/-- one `{"flag": "a"|"g"|"b", "spec": …, "auto_name": …}` entry; `auto_name` is used only when the specification carries no name (the real
+    program numbers unnamed adapters with a process-wide counter) -/
+def matchableOfSpec (g : Parser.Globals) (j : Json) : Except String (Except Parser.Err Matchable) := do
+  let t ← match P.parseType (← jstr j "flag") with | some t => pure t | none => throw "flag"
+  let spec ← jstr j "spec"
+  let auto ← jstr j "auto_name"
+  match Parser.parse spec.toList t g [] with
+  | .error e => pure (.error e)
+  | .ok [Parser.AdapterDesc.single a] =>
+    let nm := match a.name with | some n => String.ofList n | none => auto
+    pure (.ok (.single (← adapterOfSingle a nm)))
+  | .ok [Parser.AdapterDesc.linked f b fr br name] =>
+    let nm := match name with | some n => String.ofList n | none => auto
+    pure (.ok (.linked (← adapterOfSingle f "linked_front") (← adapterOfSingle b "linked_back") fr.truthy br.truthy nm))
+  | .ok _ => throw "specification does not denote exactly one adapter"
+
+def parseGlobalsJson (j : Json) : Except String Parser.Globals := do
+  let e ← match P.parseValueTok ("f:" ++ (← jstr j "e")) with | some v => pure v | none => throw "globals e"
+  let o ← match P.parseValueTok ("i:" ++ (← jstr j "O")) with | some v => pure v | none => throw "globals O"
+  pure ⟨e, o, ← jbool j "rw", ← jbool j "aw", ← jbool j "indels"⟩
+
+/-- the adapter list of one read: either `"adapters"` (objects, as before) or `"specs"` (command-line specifications) -/
+def adapterList (j : Json) (key keySpecs : String) : Except String (Except Parser.Err (List Matchable)) := do
+  match j.getObjVal? keySpecs with
+  | .ok specs =>
+    let g ← parseGlobalsJson (← j.getObjVal? "globals")
+    let rs ← (← specs.getArr?).toList.mapM (matchableOfSpec g)
+    pure (rs.mapM id)
+  | .error _ =>
+    pure (.ok (← (← (← j.getObjVal? key).getArr?).toList.mapM parseMatchable))
 
 def parseRead (j : Json) : Except String Read := do
   let a ← j.getArr?
@@ -163,8 +211,17 @@ def opPipeline (line : String) : String :=
   | .ok j =>
     let r : Except String String := do
       let o := parseOpts (← j.getObjVal? "opts")
-      let ads ← (← (← j.getObjVal? "adapters").getArr?).toList.mapM parseMatchable
-      let ads2 ← (← (← j.getObjVal? "adapters2").getArr?).toList.mapM parseMatchable
+      let adsE ← adapterList j "adapters" "specs"
+      let ads2E ← adapterList j "adapters2" "specs2"
+      -- a specification that the parser rejects: `adapters_from_args` turns KeyError/ValueError/InvalidCharacter into a command-line error
+      let parseErr : Option Parser.Err := match adsE, ads2E with
+        | .error e, _ => some e
+        | _, .error e => some e
+        | _, _ => none
+      if let some e := parseErr then
+        return (Json.mkObj [("error", if e.isCmdline then "cmdline" else "crash"), ("stage", "setup"), ("parser", P.errStr e)]).compress
+      let ads := match adsE with | .ok l => l | .error _ => []
+      let ads2 := match ads2E with | .ok l => l | .error _ => []
       let reads ← (← (← j.getObjVal? "reads").getArr?).toList.mapM parseRead
       let reads2 ← (← (← j.getObjVal? "reads2").getArr?).toList.mapM parseRead
       -- `Renamer.__init__` / `PairedEndRenamer.__init__` reject unknown placeholders (InvalidTemplate → command-line error)
